@@ -368,13 +368,10 @@ impl Property for C04 {
                 for (which, mm) in [("json", via_json), ("yaml", via_yaml)] {
                     if let Some(mm) = mm {
                         match compile(mm, None) {
-                            Ok(p) => {
+                            Ok(_) => {
+                                // arbitrary card trees are not well-scoped: the property promises a
+                                // total compile for them, not a total run
                                 labels.push(format!("{}_compiles", which));
-                                // a program the front-end accepted must also be runnable without a crash
-                                let obs = run_vm(&p, &[], &RunCfg { max_instr: 20_000, ..RunCfg::default() });
-                                if let Err(k) = &obs.outcome {
-                                    labels.push(format!("run_err:{}", k.split('(').next().unwrap_or("")));
-                                }
                                 nontrivial = true;
                             }
                             Err(e) => {
